@@ -3698,12 +3698,17 @@ fn parse_sequence_keys(exprs: &[SExpr], s: &ParserState) -> Result<Vec<u16>> {
                                     seq.push(KEY_OVERLAP_MARKER);
                                 }
                                 if do_release_mod {
-                                    mods_currently_held.remove(
-                                        mods_currently_held
-                                            .iter()
-                                            .position(|modk| modk == released)
-                                            .expect("had to be pressed to be released"),
-                                    );
+                                    // A modifier prefix with an empty list, e.g. `C-S-()`, releases
+                                    // a key that was never classified as a held modifier.
+                                    let Some(pos) =
+                                        mods_currently_held.iter().position(|modk| modk == released)
+                                    else {
+                                        bail_expr!(
+                                            &exprs_remaining[0],
+                                            "{SEQ_ERR}\nFound invalid key/chord in key_list"
+                                        );
+                                    };
+                                    mods_currently_held.remove(pos);
                                 }
                                 // release->release: next release is mod
                                 do_release_mod = matches!(key_actions.peek(), Some(Release(..)));
